@@ -54,7 +54,7 @@ def compare_sig(R, tag, before, after, ids=None, tol=None):
         w = b1[mp(i)]
         R.check(eq(v['volume'], w['volume']), tag + ':block-volume', '%r volume %r -> %r' % (w['name'], v['volume'], w['volume']))
         R.check(v['rock'] == w['rock'], tag + ':block-rock', '%r rock %r -> %r' % (w['name'], v['rock'], w['rock']))
-        if tol is None or (v['centre'] is not None and w['centre'] is not None):
+        if True:
             ok = (v['centre'] is None and w['centre'] is None) or (
                 v['centre'] is not None and w['centre'] is not None and
                 all(abs(p - q) <= (0 if tol is None else 6e-4 * max(abs(p), abs(q), 1e-30) + 1e-300) for p, q in zip(v['centre'], w['centre'])))
@@ -86,7 +86,7 @@ def seq_case():
                                max_shipped_cols=20, tiny_ok=True, conventions=(0, 1, 2)))
         steps = []
         for _ in range(draw(st.integers(1, 4))):
-            k = draw(st.sampled_from(['reorder', 'reorder', 'rename', 'file']))
+            k = draw(st.sampled_from(['reorder', 'reorder', 'rename', 'file', 'reorder_geo']))
             if k == 'reorder':
                 steps.append({'op': 'reorder', 'bseed': draw(st.integers(0, 10 ** 6)), 'cseed': draw(st.integers(0, 10 ** 6)),
                               'flip': draw(st.one_of(st.sampled_from(['none', 'all', 'first']),
@@ -95,9 +95,14 @@ def seq_case():
             elif k == 'rename':
                 steps.append({'op': 'rename', 'src': draw(st.lists(st.integers(0, 500), min_size=1, max_size=6)),
                               'kind': draw(st.sampled_from(['fresh', 'swap', 'cycle', 'shift']))})
+            elif k == 'reorder_geo':
+                steps.append({'op': 'reorder_geo'})
             else:
                 steps.append({'op': 'file'})
-        return {'k': 'seq', 'rc': rc, 'steps': steps}
+        c = {'k': 'seq', 'rc': rc, 'steps': steps}
+        # the geometry's atmosphere type set through its property after construction (the grid is built afterwards)
+        if draw(st.integers(0, 2)) == 0: c['atmos_setter'] = draw(st.lists(st.sampled_from([0, 1, 2]), min_size=1, max_size=2))
+        return c
     return s()
 
 
@@ -142,8 +147,12 @@ def run_seq(case, R):
     except mulgrids.NamingConventionError:
         R.label('build:naming-capacity'); return
     if geo.input_defects(gg): R.exclude('input:invalid-geometry'); return
+    for v in case.get('atmos_setter') or []:
+        R.label('geometry:atmosphere-type-set-by-property')
+        with R.lib('set-atmosphere_type'): gg.atmosphere_type = v
     with R.lib('fromgeo'):
         grid = t2grids.t2grid().fromgeo(gg)
+    renamed = False
     for i, c in enumerate(grid.connectionlist):       # make nad1/nad2 side-specific so a mix-up is visible
         if i % 3 == 0: c.nad1, c.nad2 = 1, 2
     nontrivial = False
@@ -173,7 +182,17 @@ def run_seq(case, R):
                 R.check([(c.block[0].name, c.block[1].name) for c in grid.connectionlist] == cnames, 'reorder:connection-order',
                         'connection order/orientation is not the requested one')
             compare_sig(R, 'reorder', before, physical_signature(grid))
+        elif step['op'] == 'reorder_geo':
+            # the other form of the call: the order is taken from a geometry (here the one the grid was built from)
+            if renamed or [b.name for b in grid.blocklist] and sorted(b.name for b in grid.blocklist) != sorted(gg.block_name_list):
+                R.label('step:reorder_geo:skipped(names no longer the geometry\'s)'); continue
+            R.label('step:reorder_geo')
+            with R.lib('reorder-geo'):
+                grid.reorder(geo=gg)
+            R.check([b.name for b in grid.blocklist] == list(gg.block_name_list), 'reorder-geo:block-order', 'block order is not the geometry\'s')
+            compare_sig(R, 'reorder-geo', before, physical_signature(grid))
         elif step['op'] == 'rename':
+            renamed = True
             R.label('step:rename:' + step['kind'])
             names = [b.name for b in grid.blocklist]
             src = list(dict.fromkeys(names[i % nb] for i in step['src']))
